@@ -300,7 +300,16 @@ func runC37(c *Ctx) {
 			}
 			ok := false
 			for _, b := range cmps {
-				if Reaches(b, mu) && unlockBetween(fn, b, mu, "Client.mu") == nil {
+				// the count must be *read* in the critical section of the reservation, not only compared there
+				var src ssa.Instruction = b
+				if lc, ok := b.X.(*ssa.Call); ok {
+					src = lc
+				} else if add, ok := b.X.(*ssa.BinOp); ok {
+					if lc, ok := add.X.(*ssa.Call); ok {
+						src = lc
+					}
+				}
+				if Reaches(b, mu) && unlockBetween(fn, src, mu, "Client.mu") == nil {
 					// the reservation is on the not-over-limit edge
 					// `limit > 0 && n >= limit`: under-limit means the ≥ test failed or no limit is configured
 					if Guarded(mu, func(g Guard) bool {
